@@ -166,8 +166,10 @@ Section Acts.
         match get_nodes T w1 rules_path goal with
         | Err _ => []
         | Ok pack =>
-            let st0 := mk_rs T w1 t [] [] [] [] in
+            let t_rest := table_rest T hc t pack in
+            let st0 := mk_rs T (write_table T w1 t_rest) t [] [] [] [] in
             let st1 := fold_left (run_leaf T teqb hc) (p_leaves pack) st0 in
+            AWriteTable t_rest ::
             run_nodes_acts st1 (p_nodes pack) ++
             match run_nodes T teqb hc hl hr st1 (p_nodes pack) with
             | None => []
